@@ -2,17 +2,26 @@
 (* Trace specification for C05: one block per cross-validation run recorded from the real library.         *)
 (*   Reset, Run, then any number of Create/Join/Merge, then passes (Groups followed by its Splits),       *)
 (*   then optional Rows, the Pred events, the Resid events and End.                                       *)
+(* Round 3: Run carries the whole case record (CvDomain.tla: the trace specification itself re-checks that *)
+(* the case lies inside the property's quantifier and the learner's domain, and recomputes work items and  *)
+(* output width); Out = the caller's output objects after the call (history class K7: outputs already      *)
+(* sized); Pred.sens for EVERY object when run.sensall = 1; ResOnly = the residual-only call path.          *)
 (* Prop conjuncts = what the property states; Impl conjuncts = how the present code does it (PropOnly off). *)
-EXTENDS CvFolds, TraceBase
+EXTENDS CvDomain, TraceBase
 CONSTANT PropOnly
-VARIABLES l, phase, run, created, joined, merged, opos, cur, seenTest, npass, nsplit
-tvars == <<l, phase, run, created, joined, merged, opos, cur, seenTest, npass, nsplit>>
+VARIABLES l, phase, run, created, joined, merged, opos, cur, seenTest, npass, nsplit, seen
+tvars == <<l, phase, run, created, joined, merged, opos, cur, seenTest, npass, nsplit, seen>>
 Ev == Tr[l]
 Step == l' = l + 1
 Tol == 1000               \* 1e-9 relative, in units of 1e-12
-NoRun == [scheme |-> "none", n |-> 0, ny |-> 1, nlv |-> 1, nth |-> 1, total |-> 0, groups |-> 0, lab |-> <<>>, scol |-> 0, algo |-> "none"]
+NoRun == [scheme |-> "none", n |-> 0, ny |-> 1, nlv |-> 1, nth |-> 1, total |-> 0, groups |-> 0, lab |-> <<>>, scol |-> 0, algo |-> "none",
+          sensall |-> 0, hist |-> 0, reuse |-> 0, iters |-> 1, mag |-> 0, dcls |-> 0]
+CvSchemes == {"boot", "loo", "kfold"}
+\* runs whose repetition is deterministic (the own-response test and the residual-only call compare two runs): LeaveOneOut and KFoldCV draw
+\* nothing; the bootstrap only single-threaded (with more workers the shared generator word is raced - property C06)
+Repeatable(r) == r.scheme \in {"loo", "kfold"} \/ (r.scheme = "boot" /\ r.nth = 1)
 TInit == /\ l = 1 /\ phase = "idle" /\ run = NoRun /\ created = {} /\ joined = {} /\ merged = <<>> /\ opos = 0
-         /\ cur = <<>> /\ seenTest = <<>> /\ npass = 0 /\ nsplit = 0
+         /\ cur = <<>> /\ seenTest = <<>> /\ npass = 0 /\ nsplit = 0 /\ seen = {}
 Item(ev) == ev.base + ev.th
 Min(a, b) == IF a < b THEN a ELSE b
 
@@ -36,28 +45,37 @@ OrchComplete == \* everything created was joined and merged exactly once; guard 
    /\ (PropOnly \/ opos = Len(ExpectedOrch))
 
 TReset == /\ l <= Len(Tr) /\ Ev.e = "Reset" /\ phase = "idle" /\ Step
-          /\ run' = NoRun /\ created' = {} /\ joined' = {} /\ merged' = <<>> /\ opos' = 0 /\ cur' = <<>> /\ seenTest' = <<>> /\ npass' = 0 /\ nsplit' = 0
+          /\ run' = NoRun /\ created' = {} /\ joined' = {} /\ merged' = <<>> /\ opos' = 0 /\ cur' = <<>> /\ seenTest' = <<>> /\ npass' = 0 /\ nsplit' = 0 /\ seen' = {}
           /\ phase' = "reset"
 TRun == /\ l <= Len(Tr) /\ Ev.e = "Run" /\ phase = "reset" /\ Step
         /\ run' = [scheme |-> Ev.scheme, n |-> Ev.n, ny |-> Ev.ny, nlv |-> Ev.nlv, nth |-> Ev.nth, total |-> Ev.total,
-                   groups |-> Ev.groups, lab |-> Ev.lab, scol |-> Ev.scol, algo |-> Ev.algo]
-        /\ phase' = "orch" /\ UNCHANGED <<created, joined, merged, opos, cur, seenTest, npass, nsplit>>
+                   groups |-> Ev.groups, lab |-> Ev.lab, scol |-> Ev.scol, algo |-> Ev.algo,
+                   sensall |-> Ev.sensall, hist |-> Ev.hist, reuse |-> Ev.reuse, iters |-> Ev.iters, mag |-> Ev.mag, dcls |-> Ev.dcls]
+        \* the case is inside the property's quantifier and the learner's own domain, and the work items / output width the driver
+        \* announces are the ones the specification computes (a rejection here is the DRIVER's fault: infrastructure, never a verdict)
+        /\ (Ev.scheme \in CvSchemes =>
+              /\ Admissible(Ev)
+              /\ Ev.total = WorkItems(Ev)
+              /\ Ev.scol = (IF Ev.algo = "PLS" THEN Ev.ny * Ev.nlv ELSE Ev.ny)
+              /\ Ev.mag = (IF Ev.dcls = 2 THEN 0 - 6 ELSE IF Ev.dcls = 3 THEN 6 ELSE 0)
+              /\ (Ev.reuse = 1 <=> Ev.hist > 0))
+        /\ phase' = "orch" /\ UNCHANGED <<created, joined, merged, opos, cur, seenTest, npass, nsplit, seen>>
 TCreate == /\ l <= Len(Tr) /\ Ev.e = "Create" /\ phase = "orch" /\ Step
            /\ Item(Ev) \notin created                                   \* Prop: a work item is started once
            /\ ImplOrch("Create")
            /\ created' = created \cup {Item(Ev)} /\ opos' = opos + 1
-           /\ UNCHANGED <<phase, run, joined, merged, cur, seenTest, npass, nsplit>>
+           /\ UNCHANGED <<phase, run, joined, merged, cur, seenTest, npass, nsplit, seen>>
 TJoin == /\ l <= Len(Tr) /\ Ev.e = "Join" /\ phase = "orch" /\ Step
          /\ Item(Ev) \in created /\ Item(Ev) \notin joined
          /\ ImplOrch("Join")
          /\ joined' = joined \cup {Item(Ev)} /\ opos' = opos + 1
-         /\ UNCHANGED <<phase, run, created, merged, cur, seenTest, npass, nsplit>>
+         /\ UNCHANGED <<phase, run, created, merged, cur, seenTest, npass, nsplit, seen>>
 TMerge == /\ l <= Len(Tr) /\ Ev.e = "Merge" /\ phase = "orch" /\ Step
           /\ Item(Ev) \in joined                                          \* Prop: no merge before join
           /\ Item(Ev) \notin Range(merged)                                \* Prop: merged once
           /\ ImplOrch("Merge")
           /\ merged' = Append(merged, Item(Ev)) /\ opos' = opos + 1
-          /\ UNCHANGED <<phase, run, created, joined, cur, seenTest, npass, nsplit>>
+          /\ UNCHANGED <<phase, run, created, joined, cur, seenTest, npass, nsplit, seen>>
 
 Rows2(g) == [r \in 1..Len(g) |-> [c \in 1..Len(g[r]) |-> g[r][c]]]
 TGroups == /\ l <= Len(Tr) /\ Ev.e = "Groups" /\ phase \in {"orch", "folds"} /\ Step
@@ -69,7 +87,7 @@ TGroups == /\ l <= Len(Tr) /\ Ev.e = "Groups" /\ phase \in {"orch", "folds"} /\ 
               /\ (PropOnly \/ IF run.scheme = "kfold" THEN G = LabelGid(run.lab) ELSE ImplShape(G, run.groups, Ev.n))
               /\ cur' = G
            /\ seenTest' = <<>> /\ npass' = npass + 1 /\ nsplit' = 0 /\ phase' = "folds"
-           /\ UNCHANGED <<run, created, joined, merged, opos>>
+           /\ UNCHANGED <<run, created, joined, merged, opos, seen>>
 TSplit == /\ l <= Len(Tr) /\ Ev.e = "Split" /\ phase = "folds" /\ Step
           /\ Ev.grp = nsplit                                                                  \* every group, in order
           /\ LET tr == [i \in 1..Len(Ev.train) |-> Ev.train[i]]
@@ -79,20 +97,34 @@ TSplit == /\ l <= Len(Tr) /\ Ev.e = "Split" /\ phase = "folds" /\ Step
              /\ (PropOnly \/ (tr = TrainOf(cur, Ev.grp) /\ te = TestOf(cur, Ev.grp)))          \* Impl: copy order
              /\ seenTest' = seenTest \o te
           /\ nsplit' = nsplit + 1
-          /\ UNCHANGED <<phase, run, created, joined, merged, opos, cur, npass>>
-TRows == /\ l <= Len(Tr) /\ Ev.e = "Rows" /\ phase = "folds" /\ Step /\ Ev.ok = 1 /\ UNCHANGED <<phase, run, created, joined, merged, opos, cur, seenTest, npass, nsplit>>
+          /\ UNCHANGED <<phase, run, created, joined, merged, opos, cur, npass, seen>>
+TRows == /\ l <= Len(Tr) /\ Ev.e = "Rows" /\ phase = "folds" /\ Step /\ Ev.ok = 1 /\ UNCHANGED <<phase, run, created, joined, merged, opos, cur, seenTest, npass, nsplit, seen>>
 TPred == /\ l <= Len(Tr) /\ Ev.e = "Pred" /\ phase \in {"orch", "folds", "pred"} /\ Step
          /\ (phase = "orch" => OrchComplete) /\ (phase # "pred" => PassComplete)
          /\ Ev.finite = 1                                     \* every object receives a finite prediction
          /\ Ev.refit <= Tol                                   \* = prediction of a model refitted on exactly the other folds
-         /\ Ev.sens \in {-1, 0}                               \* unchanged when only the object's own response changes
+         /\ Ev.sens \in {-2, -1, 0}                           \* unchanged when only the object's own response changes (-1: not measured,
+         /\ (Ev.sens = -2 => run.algo = "LDA")                \*  -2: no admissible other label for this object, LDA only)
+         /\ (run.sensall = 1 => Ev.sens # -1)                 \* every-object runs: no object may go unmeasured
          /\ Ev.cnt = Ev.passes                                \* predicted once in every pass
          /\ (run.scheme = "boot" => Ev.passes = Len(merged) /\ Ev.passes = npass)
+         /\ seen' = IF Ev.sens # -1 THEN seen \cup {"Sens"} ELSE seen
          /\ phase' = "pred" /\ UNCHANGED <<run, created, joined, merged, opos, cur, seenTest, npass, nsplit>>
 TResid == /\ l <= Len(Tr) /\ Ev.e = "Resid" /\ phase = "pred" /\ Step
           /\ Ev.err <= Tol                                    \* residual = prediction - matching response column
           /\ Ev.resp = Ev.col % run.ny /\ Ev.lv = Ev.col \div run.ny + 1
-          /\ UNCHANGED <<phase, run, created, joined, merged, opos, cur, seenTest, npass, nsplit>>
+          /\ UNCHANGED <<phase, run, created, joined, merged, opos, cur, seenTest, npass, nsplit, seen>>
+\* the caller's output objects after the call: still alive (K7: an output that is already sized for ANOTHER shape must be resized in
+\* place - replacing it by a new object leaves the caller's pointer dangling) - checked before anything reads them
+TOut == /\ l <= Len(Tr) /\ Ev.e = "Out" /\ phase = "orch" /\ run.scheme \in CvSchemes /\ Step
+        /\ Ev.pred_freed = 0 /\ Ev.res_freed = 0
+        /\ seen' = seen \cup {"Out"}
+        /\ UNCHANGED <<phase, run, created, joined, merged, opos, cur, seenTest, npass, nsplit>>
+\* the residual-only call (predicted_y = NULL): still prediction minus the matching response column, for every object and column
+TResOnly == /\ l <= Len(Tr) /\ Ev.e = "ResOnly" /\ phase = "pred" /\ Repeatable(run) /\ Step
+            /\ Ev.err <= Tol /\ Ev.shape = 1
+            /\ seen' = seen \cup {"ResOnly"}
+            /\ UNCHANGED <<phase, run, created, joined, merged, opos, cur, seenTest, npass, nsplit>>
 \* the public train_test_split(): the test ids it reports and the ids read back from the rows it copied (x[i] = i)
 \* Prop: test and training parts are disjoint, duplicate-free and together exhaust the data; the rows copied are the rows of the ids.
 \* Impl: the test part holds ceil(fraction * n) objects, the training part keeps the original order.
@@ -106,12 +138,14 @@ TTts == /\ l <= Len(Tr) /\ Ev.e = "Tts" /\ phase = "orch" /\ run.scheme = "tts" 
            /\ id = te /\ Ev.rows = 1                                                          \* Prop: reported ids = copied rows
            /\ (PropOnly \/ (Len(te) = CeilDiv(Ev.num * Ev.n, Ev.den) /\ Increasing(tr)))      \* Impl
         /\ phase' = "folds"
-        /\ UNCHANGED <<run, created, joined, merged, opos, cur, seenTest, npass, nsplit>>
+        /\ UNCHANGED <<run, created, joined, merged, opos, cur, seenTest, npass, nsplit, seen>>
 TEnd == /\ l <= Len(Tr) /\ Ev.e = "End" /\ phase \in {"folds", "pred"} /\ Step
         /\ (phase = "folds" => PassComplete)
         /\ Ev.shape = 1
-        /\ phase' = "idle" /\ UNCHANGED <<run, created, joined, merged, opos, cur, seenTest, npass, nsplit>>
-TNext == TReset \/ TRun \/ TTts \/ TCreate \/ TJoin \/ TMerge \/ TGroups \/ TSplit \/ TRows \/ TPred \/ TResid \/ TEnd
+        /\ (run.scheme \in CvSchemes => "Out" \in seen /\ phase = "pred")                       \* vacuity: the driver really observed the outputs
+        /\ (run.scheme \in CvSchemes /\ Repeatable(run) => {"Sens", "ResOnly"} \subseteq seen)  \* ... and made both repeated-run measurements
+        /\ phase' = "idle" /\ UNCHANGED <<run, created, joined, merged, opos, cur, seenTest, npass, nsplit, seen>>
+TNext == TReset \/ TRun \/ TTts \/ TOut \/ TResOnly \/ TCreate \/ TJoin \/ TMerge \/ TGroups \/ TSplit \/ TRows \/ TPred \/ TResid \/ TEnd
 TSpec == TInit /\ [][TNext]_tvars
 TraceAccepted == Accepted
 Diag == ShowCursor(l)
